@@ -2360,7 +2360,18 @@ impl Write for SummaryStream {
          * Look for the last complete pkg_summary(5) record, if there are none
          * then go to the next input.
          */
-        let input_string = match std::str::from_utf8(&self.buf) {
+        let valid = match std::str::from_utf8(&self.buf) {
+            Ok(s) => Ok(s),
+            /*
+             * A multi-byte character may be split across writes, in which
+             * case only consider the valid data received so far.
+             */
+            Err(e) if e.error_len().is_none() => {
+                std::str::from_utf8(&self.buf[..e.valid_up_to()])
+            }
+            Err(e) => Err(e),
+        };
+        let input_string = match valid {
             Ok(s) => {
                 if let Some(last) = s.rfind("\n\n") {
                     s.get(0..last + 2).unwrap()
